@@ -40,11 +40,11 @@ func init() {
 				Old: "	id, err := l.createReplacementLock(ctx)\n	if err != nil {\n		return err\n	}\n\n	ctx, cancel := delayedCancelContext(ctx, unlockCancelDelay)\n	defer cancel()\n	return l.adoptReplacementLock(ctx, id)",
 				New: "	id, err := l.createReplacementLock(ctx)\n	if err != nil {\n		debug.Log(\"create failed: %v\", err)\n	}\n\n	ctx, cancel := delayedCancelContext(ctx, unlockCancelDelay)\n	defer cancel()\n	return l.adoptReplacementLock(ctx, id)", Rule: "create-then-remove"},
 			{Name: "unlock-before-cancel", File: "internal/repository/lock.go",
-				Old: "		ticker.Stop()\n		unlocker.cancel()\n\n		debug.Log(\"unlocking repository with lock %v\", lock)", New: "		ticker.Stop()\n\n		debug.Log(\"unlocking repository with lock %v\", lock)", Rule: "cancel-before-unlock"},
+				Old: "		// ensure that the context was cancelled before removing the lock\n		unlocker.cancel()\n", New: "", Rule: "cancel-before-unlock"},
 			{Name: "stale-timeout-below-refresh-window", File: "internal/repository/lock_file.go",
 				Old: "var staleLockTimeout = 30 * time.Minute", New: "var staleLockTimeout = 12 * time.Minute", Rule: "lock-timing"},
 			{Name: "failed-stale-refresh-keeps-running", File: "internal/repository/lock.go",
-				Old: "		logger(\"failed to refresh stale lock: %v\\n\", err)\n		cancel()\n		return false", New: "		logger(\"failed to refresh stale lock: %v\\n\", err)\n		return false", Rule: "cancel-before-unlock"},
+				Old: "		// cancel context while the backend is still frozen to prevent accidental modifications\n		cancel()\n", New: "		_ = cancel\n", Rule: "cancel-before-unlock"},
 		},
 	})
 }
